@@ -402,6 +402,12 @@ def do_batch(args, tier, prof, pools, t_start, jobs):
 
         for reason, n in _C(d["aborted"][:160] for d in ab).most_common(4):
             print("  aborted x%d (first run %d): %s" % (n, min(d["run"] for d in ab if d["aborted"][:160] == reason), reason))
+    js = (post or {}).get("coverage", {}).get("java_stage")
+    if js is not None and js.get("status") != "ran":
+        print("NOTE: %s Java cross-decoding stage did not run: %s" % (prop, js.get("status")))
+        if "javac failed" in js.get("status", "") and exit_code == 0 and not reported:
+            print("HARNESS-ERROR: the repository's Java codec sources do not compile; the Java clause of %s cannot be decided" % prop)
+            exit_code = 2
     for rp in reported:
         print("violation: %s at step %d: %s" % (rp["violation"]["check"], rp["violation"]["step"], rp["violation"]["detail"][:600]))
         print("minimised to %d operations; replay verified in a fresh process: %s" % (len(rp["ops"]), rp.get("verified")))
